@@ -42,6 +42,13 @@ var solvers = []solverSpec{
 }
 
 func runSolver(ctx context.Context, sp solverSpec, file string, timeoutS, seed int) (string, string, float64) {
+	if strings.HasPrefix(sp.name, "cvc5") {
+		if data, err := os.ReadFile(file); err == nil {
+			v := cvc5Variant(string(data))
+			file = strings.TrimSuffix(file, ".smt2") + ".cvc5.smt2"
+			os.WriteFile(file, []byte(v), 0o644)
+		}
+	}
 	args := sp.args(file, timeoutS, seed)
 	start := time.Now()
 	cctx, cancel := context.WithTimeout(ctx, time.Duration(timeoutS+2)*time.Second)
@@ -140,6 +147,75 @@ func GetModel(workDir, name, script string, timeoutS int) string {
 	defer cancel()
 	out, _ := exec.CommandContext(ctx, "z3-new", fmt.Sprintf("-T:%d", timeoutS), file).CombinedOutput()
 	return string(out)
+}
+
+// cvc5Variant rewrites constant arrays whose element is not a value literal (cvc5 rejects them)
+// into declared arrays with a quantified definition.
+func cvc5Variant(script string) string {
+	var decls []string
+	n := 0
+	for {
+		i := strings.LastIndex(script, "((as const ")
+		found := false
+		for i >= 0 {
+			// parse sort
+			start := i + len("((as const ")
+			args, end, ok := parseArgs(script, start, 1)
+			if !ok {
+				i = strings.LastIndex(script[:i], "((as const ")
+				continue
+			}
+			sortS := args[0]
+			targs, end2, ok2 := parseArgs(script, end+1, 1)
+			if !ok2 {
+				i = strings.LastIndex(script[:i], "((as const ")
+				continue
+			}
+			term := targs[0]
+			if !(strings.Contains(term, "str_empty") || strings.Contains(term, "flt") || strings.Contains(term, "nil_") || strings.Contains(term, "carr!")) {
+				i = strings.LastIndex(script[:i], "((as const ")
+				continue
+			}
+			idx, _, ok3 := parseArgs(sortS, len("(Array "), 1)
+			if !ok3 && strings.HasPrefix(sortS, "(Array ") {
+				// parseArgs wants the closing paren right after `arity` args; take the first token instead
+				rest := sortS[len("(Array "):]
+				if rest[0] == '(' {
+					d := 0
+					for k := 0; k < len(rest); k++ {
+						if rest[k] == '(' {
+							d++
+						} else if rest[k] == ')' {
+							d--
+							if d == 0 {
+								idx = []string{rest[:k+1]}
+								break
+							}
+						}
+					}
+				} else {
+					idx = []string{strings.Fields(rest)[0]}
+				}
+			}
+			if len(idx) == 0 {
+				i = strings.LastIndex(script[:i], "((as const ")
+				continue
+			}
+			n++
+			name := fmt.Sprintf("|carr!%d|", n)
+			decls = append(decls, fmt.Sprintf("(declare-const %s %s)\n(assert (forall ((?ci %s)) (= (select %s ?ci) %s)))", name, sortS, idx[0], name, term))
+			script = script[:i] + name + script[end2+1:]
+			found = true
+			break
+		}
+		if !found {
+			break
+		}
+	}
+	if len(decls) == 0 {
+		return script
+	}
+	return strings.Replace(script, "; --asserts--\n", strings.Join(decls, "\n")+"\n", 1)
 }
 
 func sanitizeFile(s string) string {
